@@ -317,3 +317,47 @@ Theorem C04_eratmedium_segment_spec : forall fuel low size (b : em_buckets) (ws 
               Permutation (em_abs nb) (map w_state ws') /\ length nb = 64%nat.
 Proof. exact em_segment_spec. Qed.
 Print Assumptions C04_eratmedium_segment_spec.
+
+(** Erat's segment loop with its three cross-off algorithms (Model/Erat3M.v: sieving primes added when prime^2 <= segmentHigh
+    and dispatched by maxEratSmall_ / maxEratMedium_ to EratSmall, EratMedium's 64 lists or EratBig's bucket lists; per segment
+    eratSmall_.crossOff, eratMedium_.crossOff, eratBig_.crossOff): with the pre-sieve, after every segment a bit is still set
+    iff its number is prime - for every split of the sieving primes, every sieve size and every interval *)
+From Coq Require Import Sorted.
+From PS Require Import Model.Erat3M Model.KernelPs Proofs.Erat3SegP Proofs.Erat3LoopP.
+Theorem C04_erat3_kernel_spec : forall fuel stop maxSmall maxMedium log2 segs low pending result,
+  stop <= MAX64 -> segs_ok3 stop low segs -> (nobig stop maxMedium 164 \/ szs_ok log2 segs) ->
+  StronglySorted N.lt pending -> (forall p, In p pending <-> sp_ok3 stop 164 p) ->
+  sieve_loop3 fuel stop maxSmall maxMedium log2 segs pending e3_init = Some result ->
+  Forall (fun r : kseg * list (N * N) => let '(sg, cleared) := r in
+            forall n, coprime30 n -> k_low sg + 7 <= n -> byteof (k_low sg) n < k_size sg -> 7 <= n -> n <= k_high sg ->
+            (presieve_bit (k_low sg) n = true /\ ~ In (byteof (k_low sg) n, maskof n) cleared <-> prime n)) result.
+Proof. exact erat3_kernel_spec. Qed.
+Print Assumptions C04_erat3_kernel_spec.
+
+(** the loop invariant behind it, for any lower bound pmin >= 31 of the sieving primes: what is cleared is a genuine
+    multiple p*q of a sieving prime, and every such multiple is cleared or a multiple of 7 *)
+Theorem C04_sieve_loop3_spec : forall stop maxSmall maxMedium log2 pmin, stop <= MAX64 -> 31 <= pmin ->
+  forall fuel segs low pending s w result,
+  segs_ok3 stop low segs -> (nobig stop maxMedium pmin \/ szs_ok log2 segs) -> st_ok log2 low s w -> (nobig stop maxMedium pmin -> e_big s = []) ->
+  Forall (fun p => pmin <= p) (primes_of w) ->
+  StronglySorted N.lt pending -> Forall (sp_ok3 stop pmin) pending ->
+  (forall p, sp_ok3 stop pmin p -> In p (primes_of w) \/ In p pending \/ dead stop low p \/ dead210 stop low p) ->
+  sieve_loop3 fuel stop maxSmall maxMedium log2 segs pending s = Some result ->
+  Forall (seg_result3 pmin) result.
+Proof. exact sieve_loop3_spec. Qed.
+Print Assumptions C04_sieve_loop3_spec.
+
+(** ... and over the segments, thresholds and sieve size the geometry model (Erat::init / initAlgorithms) computes: for every
+    configuration and every interval, with the sieving primes 164 <= p <= sqrt(stop) in ascending order *)
+From PS Require Import Model.Config Model.EratGeom Proofs.KernelTopP Proofs.Erat3TopP.
+Theorem C04_erat3_model_correct : forall l1 maxKB start stop fuelg fuel l result,
+  16 <= maxKB -> maxKB <= 8192 -> 7 <= start -> start <= stop -> stop <= MAX64 ->
+  segments fuelg l1 maxKB start stop = Some l ->
+  let a := initAlgorithms l1 maxKB start stop in
+  sieve_loop3 fuel stop (a_maxSmall a) (a_maxMedium a) (N.log2 (a_sieveSize a)) (map to_kseg l)
+              (primes_between 164 (N.sqrt stop)) e3_init = Some result ->
+  Forall (fun r : kseg * list (N * N) => let '(sg, cleared) := r in
+            forall n, coprime30 n -> k_low sg + 7 <= n -> byteof (k_low sg) n < k_size sg -> 7 <= n -> n <= k_high sg ->
+            (presieve_bit (k_low sg) n = true /\ ~ In (byteof (k_low sg) n, maskof n) cleared <-> prime n)) result.
+Proof. exact erat3_model_correct. Qed.
+Print Assumptions C04_erat3_model_correct.
